@@ -91,6 +91,16 @@ func TestC17Subs(t *testing.T) {
 				}
 			} else {
 				tid := datatransfer.TransferID(1 + r.Intn(1<<30))
+				// a counterparty may open a channel to us under a transfer id we issued to it ourselves:
+				// (other, self, n) and (self, other, n) are different channels
+				for _, e := range chs {
+					if e.role.Initiator && e.per != nil && r.Intn(2) == 0 {
+						tid, other = e.chid.ID, e.other
+						ch.other = other
+						c.Count("inbound_channel_reusing_our_transfer_id", 1)
+						break
+					}
+				}
 				ch.chid = f.mkResponder(rl.Pull, other, tid, v)
 				if f.view(ch.chid) == nil {
 					continue
